@@ -228,14 +228,14 @@ def _all_consts(body):
     return out
 
 
-def r1_9(ctx):
+def r1_9(ctx, names=("trim_newlines", "ends_in_newline"), tag="newline-only", min_bodies=3):
     """what the rules compare is `trim_newlines(line)`: that helper removes line feeds and nothing else - no other character is named in
     it (a `\r` kept by keep_crlf, blanks, tabs are content that the expectation has to describe)"""
     prog = ctx.prog
     bodies = [b for b in prog.bodies if b.crate == "scrut-lib" and b.promoted is None and ".rs" in (b.where() or "") and "src/newline.rs" in b.where()
-              and any(w in b.path.split("::")[-1] or (b.kind == "Closure" and w in b.path) for w in ("trim_newlines", "ends_in_newline"))]
-    if len(bodies) < 3:
-        raise AnchorError("src/newline.rs: expected trim_newlines (bytes, str) and ends_in_newline, found %s" % [b.npath for b in bodies])
+              and any(w in b.path.split("::")[-1] or (b.kind == "Closure" and w in b.path) for w in names)]
+    if len(bodies) < min_bodies:
+        raise AnchorError("src/newline.rs: expected %d function(s) named %s, found %s" % (min_bodies, names, [b.npath for b in bodies]))
     nconst = 0
     for b in bodies:
         odd, seen = [], []
@@ -262,9 +262,9 @@ def r1_9(ctx):
                             odd.append((seen[-1], b.loc(bi)))
         calls = sorted({mname(t) for _, t in b.calls() if mname(t).split("::")[-1] in TRIMMING})
         nconst += len(seen)
-        ctx.check(not odd and not calls, "newline-only:" + b.npath.replace("newline::", ""), odd[0][1] if odd else b.where(),
+        ctx.check(not odd and not calls, tag + ":" + b.npath.replace("newline::", ""), odd[0][1] if odd else b.where(),
                   "%s names no character but `\\n` (%d constant(s)) and calls no whitespace trimming" % (b.npath, len(seen)),
-                  "%s also removes / tests %s%s: a line that ends in such a character is compared without it, so e.g. `foo\\r\\n` (keep_crlf) is accepted by "
+                  "%s also names %s%s: a line that ends in such a character is compared / written without it, so e.g. `foo\\r\\n` (keep_crlf) is accepted by "
                   "`foo (glob)` / `fo+ (regex)` / `foo (escaped)` although the expectation does not describe the carriage return" % (
                       b.npath, sorted({repr(v) for v, _ in odd}), (" via " + ", ".join(calls)) if calls else ""))
     if nconst < 2:
